@@ -29,7 +29,7 @@ def entryInRange : Key × Option Json → Bool
 
 /-! ### from entries to the object -/
 
-theorem keyIds_toObj_sublist (fs : Fields) : (keyIds fs.toObj).Sublist fs.ids := by
+theorem keyIds_toObj_sublist_ids (fs : Fields) : (keyIds fs.toObj).Sublist fs.ids := by
   induction fs with
   | nil => exact List.Sublist.slnil
   | cons e r ih =>
@@ -81,8 +81,8 @@ theorem inRangeObj_toObj (fs : Fields) (h : fs.all entryInRange = true) : Json.i
 theorem serGood_of_fields (avoid : List Nat) (fs : Fields)
     (hn : fs.ids.Nodup) (ha : ∀ k ∈ fs.ids, k ∉ avoid) (hw : fs.all entryWf = true) :
     SerGood avoid (.ok fs) :=
-  ⟨fs, rfl, (keyIds_toObj_sublist fs).nodup hn,
-    fun k hk => ha k ((keyIds_toObj_sublist fs).subset hk), wfObj_toObj fs hw⟩
+  ⟨fs, rfl, (keyIds_toObj_sublist_ids fs).nodup hn,
+    fun k hk => ha k ((keyIds_toObj_sublist_ids fs).subset hk), wfObj_toObj fs hw⟩
 
 /-- C08 for a field list from per-entry facts -/
 theorem rangeGood_of_fields (fs : Fields) (h : fs.all entryInRange = true) : RangeGood (.ok fs) := by
@@ -126,34 +126,16 @@ theorem entryWf_fldOpt_map {α} (k : Key) (o : Option α) (f : α → Json) (h :
   | none => simp [fldOpt, entryWf, Json.wf]
   | some a => simpa [fldOpt, entryWf] using h a
 
-@[simp] theorem wf_null : Json.wf .null = true := by simp [Json.wf]
 @[simp] theorem wf_int (i : Int) : Json.wf (.int i) = true := by simp [Json.wf]
 @[simp] theorem wf_bool (b : Bool) : Json.wf (.bool b) = true := by simp [Json.wf]
-@[simp] theorem wf_lit (k : Key) : Json.wf (.lit k) = true := by simp [Json.wf]
-@[simp] theorem wf_chars (cs : List Char) : Json.wf (.chars cs) = true := by simp [Json.wf]
-@[simp] theorem wf_hypot (a b : Int) : Json.wf (.hypot a b) = true := by simp [Json.wf]
-@[simp] theorem wf_atan2deg (a b : Int) : Json.wf (.atan2deg a b) = true := by simp [Json.wf]
 @[simp] theorem wf_num (n : Int) (d : Nat) : Json.wf (.num n d) = (d != 0) := by simp [Json.wf]
-@[simp] theorem wf_jnat (n : Nat) : (jnat n).wf = true := wf_int _
-@[simp] theorem wf_jint (i : Int) : (jint i).wf = true := wf_int _
-@[simp] theorem wf_jbool (b : Bool) : (jbool b).wf = true := wf_bool _
-@[simp] theorem wf_jhex4 (v : Nat) : (jhex4 v).wf = true := wf_chars _
-@[simp] theorem wf_jhex6 (v : Nat) : (jhex6 v).wf = true := wf_chars _
-@[simp] theorem wf_jrat (n : Int) (d : Nat) : (jrat n d).wf = (d != 0) := wf_num _ _
+@[simp] theorem wf_jrat_eq (n : Int) (d : Nat) : (jrat n d).wf = (d != 0) := wf_num _ _
 
-@[simp] theorem inRange_null : Json.inRange .null = true := by simp [Json.inRange]
 @[simp] theorem inRange_int (i : Int) : Json.inRange (.int i) = true := by simp [Json.inRange]
 @[simp] theorem inRange_bool (b : Bool) : Json.inRange (.bool b) = true := by simp [Json.inRange]
-@[simp] theorem inRange_lit (k : Key) : Json.inRange (.lit k) = true := by simp [Json.inRange]
-@[simp] theorem inRange_chars (cs : List Char) : Json.inRange (.chars cs) = true := by simp [Json.inRange]
 @[simp] theorem inRange_num (n : Int) (d : Nat) : Json.inRange (.num n d) = true := by simp [Json.inRange]
 @[simp] theorem inRange_hypot (a b : Int) : Json.inRange (.hypot a b) = true := by simp [Json.inRange]
 @[simp] theorem inRange_atan2deg (a b : Int) : Json.inRange (.atan2deg a b) = true := by simp [Json.inRange]
-@[simp] theorem inRange_jnat (n : Nat) : (jnat n).inRange = true := inRange_int _
-@[simp] theorem inRange_jint (i : Int) : (jint i).inRange = true := inRange_int _
-@[simp] theorem inRange_jbool (b : Bool) : (jbool b).inRange = true := inRange_bool _
-@[simp] theorem inRange_jrat (n : Int) (d : Nat) : (jrat n d).inRange = true := inRange_num _ _
-@[simp] theorem inRange_jhex4 (v : Nat) : (jhex4 v).inRange = true := inRange_chars _
 
 /-- an entry whose key is not in the C08 table: the value only has to be range-clean inside -/
 theorem entryInRange_free (k : Key) (v : Json) (hk : specFor k.id = none) (hv : v.inRange = true) :
@@ -182,9 +164,6 @@ theorem entryInRange_spec_opt (k : Key) (o : Option Json) (c : Constraint) (hk :
   | none => rfl
   | some v => exact entryInRange_spec k v c hk (hv v rfl)
 
-/-- `null` satisfies every constraint -/
-@[simp] theorem holds_null (c : Constraint) : c.holds .null = true := by
-  cases c <;> simp [Constraint.holds]
 
 end Rs1090.Model
 
